@@ -2289,6 +2289,7 @@ package spec
 //@   loop 0 invariant len(raw.Alias.Security) == len(o.Security) && raw.Alias.Swagger == o.Swagger && raw.Alias.Host == o.Host && raw.Alias.BasePath == o.BasePath && raw.Alias.ID == o.ID
 //@   loop 0 invariant [C14] each-padded-requirement-owns-its-map @@ forall i int, j int :: 0 <= i && i < j && j < len(raw.Security) ==> raw.Security[i] != raw.Security[j]
 //@   loop 0 invariant live(sliceArr(raw.Security)) && (forall i int :: 0 <= i && i < len(raw.Security) ==> raw.Security[i] != nil && live(raw.Security[i]))
+//@   loop 1 invariant [C14] padded-scope-lists-of-this-requirement @@ forall k string :: triggers(has(v, k)) && (has(v, k) == $seen1[k] && ($seen1[k] ==> len(v[k].List) == len(req[k])))
 
 //@ func (*SwaggerProps).GobDecode
 //@   property C14
@@ -2304,6 +2305,7 @@ package spec
 //@   loop 0 invariant [C14] each-requirement-owns-its-map @@ forall i int, j int :: 0 <= i && i < j && j < len(raw.Alias.Security) ==> raw.Alias.Security[i] != raw.Alias.Security[j]
 //@   loop 0 invariant live(sliceArr(raw.Alias.Security)) && (forall i int :: 0 <= i && i < len(raw.Alias.Security) ==> raw.Alias.Security[i] != nil && live(raw.Alias.Security[i]))
 //@   ensures  [C14] requirements-own-their-maps @@ result == nil && gobPad[gobStream(b)].Alias != nil && !gobPad[gobStream(b)].SecurityIsEmpty && len(gobPadAlias[gobStream(b)].Security) > 0 ==> (forall i int, j int :: 0 <= i && i < j && j < len(o.Security) ==> o.Security[i] != o.Security[j])
+//@   loop 1 invariant [C14] scope-lists-of-this-requirement @@ forall k string :: triggers(has(v, k)) && (has(v, k) == $seen1[k] && ($seen1[k] ==> len(v[k]) == len(req[k].List)))
 
 //@ func (OperationProps).GobEncode
 //@   property C14
@@ -2318,6 +2320,7 @@ package spec
 //@   loop 0 invariant len(raw.Alias.Security) == len(op.Security) && raw.Alias.Description == op.Description && raw.Alias.Summary == op.Summary && raw.Alias.ID == op.ID && raw.Alias.Deprecated == op.Deprecated
 //@   loop 0 invariant [C14] each-padded-requirement-owns-its-map @@ forall i int, j int :: 0 <= i && i < j && j < len(raw.Security) ==> raw.Security[i] != raw.Security[j]
 //@   loop 0 invariant live(sliceArr(raw.Security)) && (forall i int :: 0 <= i && i < len(raw.Security) ==> raw.Security[i] != nil && live(raw.Security[i]))
+//@   loop 1 invariant [C14] padded-scope-lists-of-this-requirement @@ forall k string :: triggers(has(v, k)) && (has(v, k) == $seen1[k] && ($seen1[k] ==> len(v[k].List) == len(req[k])))
 
 //@ func (*OperationProps).GobDecode
 //@   property C14
@@ -2333,6 +2336,7 @@ package spec
 //@   loop 0 invariant [C14] each-requirement-owns-its-map @@ forall i int, j int :: 0 <= i && i < j && j < len(raw.Alias.Security) ==> raw.Alias.Security[i] != raw.Alias.Security[j]
 //@   loop 0 invariant live(sliceArr(raw.Alias.Security)) && (forall i int :: 0 <= i && i < len(raw.Alias.Security) ==> raw.Alias.Security[i] != nil && live(raw.Alias.Security[i]))
 //@   ensures  [C14] requirements-own-their-maps @@ result == nil && gobOpPad[gobStream(b)].Alias != nil && !gobOpPad[gobStream(b)].SecurityIsEmpty && len(gobOpPadAlias[gobStream(b)].Security) > 0 ==> (forall i int, j int :: 0 <= i && i < j && j < len(op.Security) ==> op.Security[i] != op.Security[j])
+//@   loop 1 invariant [C14] scope-lists-of-this-requirement @@ forall k string :: triggers(has(v, k)) && (has(v, k) == $seen1[k] && ($seen1[k] ==> len(v[k]) == len(req[k].List)))
 
 //@ func verifLemmaRefableEncodesAsRef
 //@   inline   (Ref).MarshalJSON
